@@ -209,6 +209,36 @@ impl FunctionName {
   lowered
 //@end
 
+
+/// what the Call arm does with the value a vector runtime function hands back (R14 block): the runtime returns a
+/// `(ref null eq)` slot; an int element is unwrapped from its i31, a concrete struct type is cast to, and an
+/// any-pointer element (an enum with tag-only or unboxed variants) is used as it is
+impl LirType {
+  /// R3: `is_int32` / `is_id` generated by derive(EnumAsInner) on lir::Type
+  #[verifier::external_body]
+  fn is_int32(&self) -> (r: bool) ensures r == (*self is Int32) { unimplemented!() }
+  #[verifier::external_body]
+  fn is_id(&self) -> (r: bool) ensures r == (*self is Id) { unimplemented!() }
+  /// R3: derived Clone
+  #[verifier::external_body]
+  fn clone(&self) -> (r: LirType) ensures r == *self { unimplemented!() }
+}
+//@extractblock crates/samlang-compiler/src/wasm_lowering.rs :: impl<'a> LoweringManager<'a> / fn lower_stmt
+//@from let call = if vec_returns_element { if return_type.is_int32() {
+//@to } else { call };
+//@replace* wasm::InlineInstruction:: => InlineInstruction:: ## R1: module path of the extracted type
+//@replace mir::FunctionName::UNWRAP_I31 => FunctionName::unwrap_i31() ## R3: the named constant of the opaque name
+//@wrap fn unwrap_vec_element(vec_returns_element: bool, return_type: &LirType, call: InlineInstruction) -> (r: InlineInstruction)
+//@contract
+    ensures
+      !vec_returns_element ==> r == call,
+      vec_returns_element && *return_type is Int32 ==> r is DirectCall && r->DirectCall_0 == unwrap_i31_fn() && r->DirectCall_1@ == seq![call],  // :an_int_element_is_unwrapped_from_its_i31
+      vec_returns_element && *return_type is Id ==> r == (InlineInstruction::Cast { pointer_type: *return_type, value: Box::new(call) }),  // :a_struct_element_is_cast_to_its_type
+      vec_returns_element && !(*return_type is Int32) && !(*return_type is Id) ==> r == call,  // :an_any_pointer_element_is_used_as_the_runtime_returns_it
+//@atend
+  call
+//@end
+
 // ---- what that means for the value (WebAssembly GC: ref.i31 keeps the low 31 bits, i31.get_s sign-extends them;
 // libsam.wat $__$unwrapI31 = (i31.get_s (ref.cast (ref i31) v)); the TypeScript runtime stores the number itself)
 spec fn i31_round_trip(x: int) -> int {
